@@ -21,3 +21,4 @@ open BHS.Props.C12
 #print axioms C12_get_reports_partial
 #print axioms C12_get_reports
 #print axioms C12_restart
+#print axioms C12_counter_translated
